@@ -110,7 +110,7 @@ def run_tlc(item):
 
 def catalogue(tier, only=None):
     quick = tier == 'quick'
-    target, min_n, doublings, nested_n = (120000, 600, 2, 40) if quick else (300000, 2000, 3, 50)
+    target, min_n, doublings, nested_n = (100000, 600, 2, 40) if quick else (300000, 2000, 3, 50)
     jitter = (SEED * 37) % 13
     calls, prims = [], []
 
@@ -136,6 +136,10 @@ def catalogue(tier, only=None):
                 add('dump', fam, api)
     for fam in U.DUMP_ALL:
         add('dump', fam, 'dump_all')
+    for fam in U.POSITION_TEXT:                  # a growing node in every structural position, fed to the emitter /
+        add('dump', fam, 'emit_text')            # serializer as events / nodes (a mapping can be a key only this way)
+        if not quick or fam.startswith('first_key'):
+            add('dump', fam, 'serialize_text')
     pn = 500 if quick else 2000
     pn += (pn * jitter) // 100
     for fam in U.LOAD:
@@ -156,6 +160,10 @@ def catalogue(tier, only=None):
             continue
         sizes = [nested_n, 2 * nested_n, 4 * nested_n] if fam in U.DUMP_NESTED else [pn, 2 * pn, 4 * pn]
         prims.append(('dump', fam, 'dump', sizes))
+    for fam in U.POSITION_TEXT:
+        if only and fam not in only:
+            continue
+        prims.append(('dump', fam, 'emit_text', [pn, 2 * pn, 4 * pn]))
     return calls, prims
 
 
@@ -245,7 +253,7 @@ def main(tier, replay=None):
     worst.sort(reverse=True)
     v.cov = {'states': states, 'transitions': trans, 'exhaustive': True,
              'traces_validated_against_impl': len(traces), 'ratio_records_judged': nratio, 'primitive_bound_records_judged': nprim,
-             'load_families': len(U.LOAD), 'dump_families': len(U.DUMP) + len(U.DUMP_ALL),
+             'load_families': len(U.LOAD), 'dump_families': len(U.DUMP) + len(U.DUMP_ALL) + len(U.POSITION_TEXT),
              'distinct_nontrivial': len({(t['family'], t['api']) for t in recs}),
              'rule': 'one record per (family, api): call counts at n, 2n, 4n%s under sys.setprofile judged by Trace_Work.tla '
                      '(H_LinearWork, eps = 15%%); primitive lengths (token queue, simple-key table, reader buffer, emitter '
